@@ -43,7 +43,7 @@ class Capture(object):
 
 
 def run_test(nodes, test_start=None, callbacks=(), options=None, diagnosers=(),
-             metadata=None):
+             metadata=None, profile_filename=None):
   """Builds and executes a Test; returns (result|exception, records, test)."""
   init()
   import openhtf as htf  # pylint: disable=g-import-not-at-top
@@ -56,7 +56,10 @@ def run_test(nodes, test_start=None, callbacks=(), options=None, diagnosers=(),
     test.configure(**options)
   mark = len(THREAD_ERRORS)
   try:
-    res = test.execute(test_start=test_start)
+    if profile_filename is not None:
+      res = test.execute(test_start=test_start, profile_filename=profile_filename)
+    else:
+      res = test.execute(test_start=test_start)
   except BaseException as e:  # pylint: disable=broad-except
     res = e
   thread_errors = [e for e in THREAD_ERRORS[mark:] if e[0].startswith('TestExecutorThread')]
